@@ -1,7 +1,6 @@
 package store
 
 import (
-	"bufio"
 	"bytes"
 	"errors"
 	"fmt"
@@ -67,7 +66,7 @@ func (c *Config) load(configPath string, isGlobal bool) error {
 
 	var ident string
 	buf := bytes.NewReader(b)
-	scanner := bufio.NewScanner(buf)
+	scanner := fsutil.NewLineScanner(buf)
 	for scanner.Scan() {
 		text := scanner.Text()
 		if identRegexp.MatchString(text) {
@@ -97,6 +96,10 @@ func (c *Config) load(configPath string, isGlobal bool) error {
 				c.local[ident][key] = value
 			}
 		}
+	}
+	// a read error must not silently drop the rest of the file
+	if err := scanner.Err(); err != nil {
+		return err
 	}
 
 	return nil
